@@ -28,6 +28,12 @@ MUTANTS = [
     # ---- C04
     ("C04", "detect", CHK, "    if response.status_code not in allowed_status_codes:", "    if response.status_code not in allowed_status_codes and response.status_code >= 500:", "undocumented 4xx accepted"),
     ("C04", "detect", CHK, "    if \"default\" in responses:\n        return None\n    allowed_status_codes", "    if \"default\" not in responses:\n        return None\n    allowed_status_codes", "default rule inverted"),
+    ("C04", "detect", "specs/openapi/schemas.py", "        if matches_status_code(key, status_code):\n            return definition", "        if False:\n            return definition", "status code ranges ignored when selecting the definition (F04a regression)"),
+    ("C04", "detect", "specs/openapi/schemas.py", "        if str(key) == str(status_code):", "        if key == status_code:", "exact code compared without str(): string keys never match"),
+    ("C04", "detect", "specs/openapi/schemas.py", "            if expected == received:\n                return definition", "            if True:\n                return definition", "first documented media type always wins (F04b regression)"),
+    ("C04", "detect", "specs/openapi/schemas.py", "definition, operation.definition.scope, content_types[0] if content_types else None", "definition, operation.definition.scope, None", "schema looked up without the response's Content-Type"),
+    ("C04", "detect", "specs/openapi/schemas.py", "option = _find_media_type_definition(definition.get(\"content\", {}), content_type)", "option = _find_media_type_definition(definition.get(\"content\", {}), None)", "3.x schema lookup drops the content type"),
+    ("C04", "quiet", "specs/openapi/schemas.py", "    return next(iter(content.values()), None)", "    for definition in content.values():\n        return definition\n    return None", "first documented media type written as a loop"),
     # ---- C05
     ("C05", "detect", UNIT, "    except (FailureGroup, Failure):\n        status = Status.FAILURE", "    except (FailureGroup, Failure):\n        status = Status.SUCCESS", "failure swallowed in run_test"),
     ("C05", "detect", UNIT, "        and ctx.config.execution.continue_on_failure\n", "        and not ctx.config.execution.continue_on_failure\n", "continue_on_failure inverted"),
